@@ -826,6 +826,70 @@ private:
 	}
 	
 	///Read from a file
+	///Release whatever storage is currently held and return to the empty state.
+	///Unlike the destructor this tolerates a partially built table: any of the
+	///arrays may still be null, provided that the entries of knots and
+	///extents[0] were nulled when those arrays were allocated and that order
+	///and nknots are valid for every non-null knots[i].
+	void release_storage(){
+		if(knots){
+			for(uint32_t i=0; i<ndim; i++){
+				if(knots[i])
+					deallocate(knots[i]-order[i],nknots[i]+2*order[i]);
+			}
+			deallocate(knots,ndim);
+		}
+		if(nknots)
+			deallocate(nknots,ndim);
+		if(order)
+			deallocate(order,ndim);
+		if(extents){
+			if(extents[0])
+				deallocate(extents[0],2*ndim);
+			deallocate(extents,ndim);
+		}
+		if(periods)
+			deallocate(periods,ndim);
+		if(coefficients)
+			deallocate(coefficients,strides[0]*naxes[0]);
+		if(naxes)
+			deallocate(naxes,ndim);
+		if(strides)
+			deallocate(strides,ndim);
+		if(aux){
+			for(uint32_t i=0; i<naux; i++){
+				if(!aux[i])
+					continue;
+				if(aux[i][0])
+					deallocate(aux[i][0],strlen(&aux[i][0][0])+1);
+				if(aux[i][1])
+					deallocate(aux[i][1],strlen(&aux[i][1][0])+1);
+				deallocate(aux[i],2);
+			}
+			deallocate(aux,naux);
+		}
+		ndim=0;
+		order=NULL;
+		knots=NULL;
+		nknots=NULL;
+		extents=NULL;
+		periods=NULL;
+		coefficients=NULL;
+		naxes=NULL;
+		strides=NULL;
+		naux=0;
+		aux=NULL;
+	}
+	
+	///Empties the table again if an operation which (re)builds its storage fails
+	///part way, so that a failed call never leaves a partially built object.
+	struct storage_guard{
+		splinetable* table;
+		explicit storage_guard(splinetable* t):table(t){}
+		~storage_guard(){ if(table) table->release_storage(); }
+		void dismiss(){ table=NULL; }
+	};
+	
 	bool read_fits_core(fitsfile*, const std::string& filePath="");
 	
 	///Write to a file
